@@ -322,3 +322,16 @@ Proof.
   intros t s Hs. apply encodable_false in Hs.
   destruct t; cbn; try rewrite Hs; reflexivity.
 Qed.
+
+(* the definition-text channel accepts exactly what the constructor accepts, for constructible types that may be
+   attributes of a composite (byte and utf8 are array element types only) *)
+Theorem text_channel : forall t v v', const_text t v = COk v' <->
+  ctype_ok t = true /\ t <> TByte /\ t <> TUtf8 /\ const_check t v = COk v'.
+Proof.
+  intros t v v'. unfold const_text. destruct (ctype_ok t); cbn [negb].
+  - destruct (const_check t v) as [w|] eqn:E.
+    + destruct t; split; intros H; try discriminate; try (inversion H; subst; repeat split; try discriminate; reflexivity);
+        try (destruct H as [_ [A [B C]]]; try congruence).
+    + split; [discriminate|]. intros [_ [_ [_ H]]]. discriminate.
+  - split; [discriminate|]. intros [H _]. discriminate.
+Qed.
